@@ -936,13 +936,87 @@ def _is_dataclass(cdef) -> bool:
     return any(last_attr(d.func if isinstance(d, ast.Call) else d) == "dataclass" for d in cdef.decorator_list)
 
 
+import builtins as _builtins  # noqa: E402
+
+_BUILTIN_EXC = {n: getattr(_builtins, n) for n in dir(_builtins) if isinstance(getattr(_builtins, n), type) and issubclass(getattr(_builtins, n), BaseException)}
+
+
+class ExcRec(Rec):
+    """An *instance* of a repository exception class: a record bound to the class (its ``__init__`` / methods / properties are interpreted),
+    with ``args`` like every exception.  It travels in ``RaisedObj`` and is what ``except Cls as e`` binds, so an error that is transported
+    by a private exception (``raise _Err(message, code)`` ... ``except _Err as e: use(e.message, e.code)``) is interpreted like the inline
+    code it replaced.  pyint's core represents exception instances as the string '<exc:Name>' (kept for the built-in exceptions)."""
+
+    def message_text(self) -> str:
+        a = self.__dict__.get("args", ())
+        return "" if not a else (str(a[0]) if len(a) == 1 else str(tuple(a)))
+
+
+class EnumInt(int):
+    """Member of an int-valued repository enum (IntEnum / IntFlag / ``class X(int, Enum)``): it IS its integer value for every comparison,
+    arithmetic, ``bytes([..])`` / ``struct.pack`` - exactly like the real member - and knows ``name`` / ``value`` / its class.  (pyint's core
+    represents enum members as an opaque tuple, which is right for plain ``Enum`` only: ``buf[3] == Atyp.IPV4`` has to be decided by value
+    when module constants are modernised into an IntEnum.)"""
+
+    def __new__(cls, value, enum_cls, name):
+        o = int.__new__(cls, value)
+        o._enum_cls, o.name, o.value = enum_cls, name, int(value)
+        return o
+
+    def __repr__(self):
+        return f"<{self._enum_cls}.{self.name}: {int(self)}>"
+
+    __str__ = int.__repr__
+
+    def __format__(self, spec):
+        return format(int(self), spec)
+
+
+class EnumStr(str):
+    """Member of a str-valued repository enum (StrEnum / ``class X(str, Enum)``): it IS its string value."""
+
+    def __new__(cls, value, enum_cls, name):
+        o = str.__new__(cls, value)
+        o._enum_cls, o.name, o.value = enum_cls, name, str.__str__(value)
+        return o
+
+    def __repr__(self):
+        return f"<{self._enum_cls}.{self.name}: {str.__repr__(self)}>"
+
+
+class NTVal(tuple):
+    """Instance of a repository ``typing.NamedTuple`` class: a real tuple (unpacking, indexing, equality with plain tuples - what the rest
+    of the program sees) whose fields also read as attributes; methods / properties of the class are interpreted."""
+
+    def __new__(cls, values, fields, impl, cls_name):
+        o = tuple.__new__(cls, values)
+        o._fields, o._impl, o._cls = tuple(fields), impl, cls_name
+        return o
+
+    def __repr__(self):
+        return f"{self._cls}({', '.join(f'{k}={v!r}' for k, v in zip(self._fields, self))})"
+
+
+class RaisedObj(Raised):
+    """``Raised`` that carries the exception instance (an ``ExcRec``)."""
+
+    def __init__(self, value: ExcRec):
+        super().__init__(value._cls, value.message_text() if all(isinstance(a, (str, bytes, int, float, bool, type(None))) for a in value.__dict__.get("args", ())) else "")
+        self.value = value
+
+
 class LayerInterp(Interp):
     """pyint for sans-io layers and addon hooks:
     * a call of a generator function is executed eagerly; every yielded command is handed to ``respond(command)`` (the rule's
       environment: it may mutate hook data and returns the value sent back - ``err = yield OpenConnection(..)``) and appended to
       ``self.log`` in program order; ``x = yield from g()`` gets g's return value;
     * class-level attributes are evaluated in class scope and bound like methods (``state = state_greet``); ``del self.attr``;
-      ``A | B`` of classes is the tuple (A, B) for isinstance; dataclasses get the generated ``__init__``; a null ``logging``."""
+      ``A | B`` of classes is the tuple (A, B) for isinstance; dataclasses get the generated ``__init__``; a null ``logging``;
+    * instances of repository exception classes are objects (``ExcRec``): state given to ``raise Err(msg, code)`` is what ``except Err
+      as e`` reads (``e.code``, ``e.args``, ``str(e)``), bare ``raise`` re-raises the object, handlers match by class hierarchy - an error
+      transported by a private exception and handled inside the layer is the same behaviour as the inline error path;
+    * members of int / str valued enums are their values (``EnumInt`` / ``EnumStr``), ``Cls(value)`` looks the member up;
+      ``typing.NamedTuple`` instances are real tuples with named fields (``NTVal``)."""
 
     def __init__(self, model, respond=None, trusted_modules=None, externals=None, **kw):
         tm = {"logging": LOGGING_STUB, "socket": SOCKET_STUB, "struct": _struct, "warnings": WARNINGS_STUB}
@@ -1132,6 +1206,8 @@ class LayerInterp(Interp):
     def native_call(self, f, args, kwargs, where):
         if isinstance(getattr(f, "__self__", None), NullLogger) or getattr(f, "_abstract_ok", False):
             return f(*args, **kwargs)
+        if (f is str or f is repr) and len(args) == 1 and not kwargs and isinstance(args[0], ExcRec):
+            return self.exc_text(args[0], repr_=f is repr)
         if any(isinstance(a, Opaque) for a in list(args) + list(kwargs.values())):
             raise AnalysisError(f"interpretation harness: attribute outside the modelled world passed to a library call at {where}")
         return super().native_call(f, args, kwargs, where)
@@ -1151,7 +1227,201 @@ class LayerInterp(Interp):
                 del base.__dict__[t.attr]
                 self.writes.append((base._name, "delattr", t.attr, None))
             return
+        if isinstance(st, ast.Raise):
+            return self.raise_(st, env, mod, depth)
         return super().stmt(st, env, mod, depth)
+
+    # ---- exceptions as objects: instances of repository exception classes keep their state from `raise` to `except .. as e`
+    def raise_(self, st, env, mod, depth):
+        self.tick()
+        if st.exc is None:
+            cur = env.get("$handling_obj")
+            if isinstance(cur, ExcRec) and env.get("$handling") == cur._cls:
+                raise RaisedObj(cur)
+            return super().stmt(st, env, mod, depth)
+        try:
+            v = self.ev(st.exc, env, mod, depth)
+            if isinstance(v, ClassRef) and self._class_info(v)[5]:
+                v = self.instantiate(v, [], {}, depth, _Where(st))  # `raise Cls` raises Cls()
+        except AnalysisError:
+            # the exception's arguments are outside the interpreted subset: only its class matters then (pyint's own reading)
+            return super().stmt(st, env, mod, depth)
+        if isinstance(v, ExcRec):
+            raise RaisedObj(v)
+        if isinstance(v, str) and v.startswith("<exc:") and v.endswith(">"):
+            raise Raised(v[5:-1])
+        if isinstance(v, tuple) and len(v) == 2 and v[0] == "$exc":
+            raise Raised(v[1])
+        return super().stmt(st, env, mod, depth)
+
+    def exc_matches(self, r, handler: str, mod) -> bool:
+        """does ``except <handler>`` catch the raised exception?  For an exception *object* the answer comes from its class hierarchy
+        (wherever the class is defined); pyint's reading by name otherwise."""
+        v = getattr(r, "value", None)
+        if isinstance(v, ExcRec):
+            names = {v._cls} | set(v._bases)
+            if handler in names or handler == "BaseException":
+                return True
+            h = _BUILTIN_EXC.get(handler)
+            return h is not None and any(n in _BUILTIN_EXC and issubclass(_BUILTIN_EXC[n], h) for n in names)
+        return self.exc_isa(r.name, handler, mod)
+
+    def try_(self, st, env, mod, depth):
+        # pyint.try_ with the exception object bound by `as` (and kept for a bare `raise`)
+        try:
+            try:
+                self.block(st.body, env, mod, depth)
+            except Raised as r:
+                for h in st.handlers:
+                    names = ["BaseException"] if h.type is None else [last_attr(e) for e in (h.type.elts if isinstance(h.type, ast.Tuple) else [h.type])]
+                    if any(self.exc_matches(r, n, mod) for n in names):
+                        obj = getattr(r, "value", None)
+                        if h.name:
+                            env[h.name] = obj if isinstance(obj, ExcRec) else f"<exc:{r.name}>"
+                        prev, prev_obj = env.get("$handling"), env.get("$handling_obj")
+                        env["$handling"] = r.name
+                        env["$handling_obj"] = obj
+                        try:
+                            self.block(h.body, env, mod, depth)
+                        finally:
+                            if prev is None:
+                                env.pop("$handling", None)
+                            else:
+                                env["$handling"] = prev
+                            if prev_obj is None:
+                                env.pop("$handling_obj", None)
+                            else:
+                                env["$handling_obj"] = prev_obj
+                        break
+                else:
+                    raise
+            else:
+                self.block(st.orelse, env, mod, depth)
+        finally:
+            if st.finalbody:
+                self.block(st.finalbody, env, mod, depth)
+
+    # ---- int / str valued enums: members are their values
+    def _enum_kind(self, cref):
+        """'int' | 'str' | 'plain' | None (not an enum) for a repository class"""
+        qual = getattr(cref.node, "_qual", cref.node.name)
+        k = ("$enumkind", cref.mod.rel, qual)
+        if k not in self._dc_cache:
+            ext = [last_attr(b) for _, cc in self.model.mro(cref.mod.rel, qual) for b in cc.bases]
+            kind = None
+            if any(b in ("Enum", "IntEnum", "Flag", "IntFlag", "StrEnum") for b in ext):
+                kind = "int" if any(b in ("IntEnum", "IntFlag", "int") for b in ext) else "str" if any(b in ("StrEnum", "str") for b in ext) else "plain"
+            self._dc_cache[k] = kind
+        return self._dc_cache[k]
+
+    def class_attr(self, cref, attr, depth):
+        kind = self._enum_kind(cref)
+        if kind not in ("int", "str"):
+            return super().class_attr(cref, attr, depth)
+        k = ("$enummember", cref.mod.rel, getattr(cref.node, "_qual", cref.node.name), attr)
+        if k not in self._dc_cache:  # one object per member: `x is Cls.MEMBER` holds like for the real enum
+            v = super().class_attr(cref, attr, depth)
+            if isinstance(v, tuple) and len(v) == 4 and v[0] == "$enum":
+                if kind == "int" and type(v[3]) is int:
+                    v = EnumInt(v[3], cref.node.name, attr)
+                elif kind == "str" and type(v[3]) is str:
+                    v = EnumStr(v[3], cref.node.name, attr)
+            self._dc_cache[k] = v
+        return self._dc_cache[k]
+
+    # ---- typing.NamedTuple classes: real tuples with named fields
+    def _namedtuple(self, c, args, kwargs, depth):
+        fields = [(st.target.id, st.value) for st in c.node.body if isinstance(st, ast.AnnAssign) and isinstance(st.target, ast.Name)]
+        names = [f[0] for f in fields]
+        if len(args) > len(names):
+            raise Raised("TypeError", "too many positional arguments")
+        vals = dict(zip(names, args))
+        for k, v in kwargs.items():
+            if k not in names or k in vals:
+                raise Raised("TypeError", f"unexpected keyword {k}")
+            vals[k] = v
+        for fname, default in fields:
+            if fname not in vals:
+                if default is None:
+                    raise Raised("TypeError", f"missing argument {fname}")
+                vals[fname] = self.ev(default, {}, c.mod, depth)
+        return NTVal([vals[n] for n in names], names, (c.mod.rel, getattr(c.node, "_qual", c.node.name)), c.node.name)
+
+    def _nt_getattr(self, base: NTVal, attr, node, depth):
+        if attr in base._fields:
+            return base[base._fields.index(attr)]
+        if attr == "_fields":
+            return base._fields
+        if attr in ("_replace", "_asdict"):
+            def _replace(**kw):
+                if set(kw) - set(base._fields):
+                    raise Raised("ValueError", "unexpected field names")
+                return NTVal([kw.get(n, v) for n, v in zip(base._fields, base)], base._fields, base._impl, base._cls)
+
+            def _asdict():
+                return dict(zip(base._fields, base))
+
+            f = _replace if attr == "_replace" else _asdict
+            f._abstract_ok = True
+            return f
+        hit = self._class_lookup(base._impl, attr)
+        if hit is not None and hit[0] == "def":
+            _, m, fnode, _c = hit
+            decs = [norm(d) for d in fnode.decorator_list]
+            if any(d in ("property", "cached_property", "functools.cached_property") for d in decs):
+                return self.apply(Func(m, fnode, bound=base), [], {}, depth)
+            if "staticmethod" in decs:
+                return Func(m, fnode)
+            if "classmethod" in decs:
+                raise AnalysisError(f"interpretation harness: classmethod {base._cls}.{attr} of a NamedTuple is not modelled")
+            return Func(m, fnode, bound=base)
+        if hit is not None and hit[0] == "value":
+            return self.ev(hit[2], {}, hit[1], depth)
+        try:
+            return getattr(tuple(base), attr)  # count / index
+        except AttributeError:
+            raise Raised("AttributeError")
+
+    def _enum_members(self, cref, depth):
+        out = []
+        for st in cref.node.body:
+            targets = st.targets if isinstance(st, ast.Assign) else [st.target] if isinstance(st, ast.AnnAssign) and st.value is not None else []
+            for t in targets:
+                if isinstance(t, ast.Name) and not t.id.startswith("_"):
+                    m = self.class_attr(cref, t.id, depth)
+                    if isinstance(m, (EnumInt, EnumStr)):
+                        out.append(m)
+        return out
+
+    def isinstance_(self, v, classes) -> bool:
+        if isinstance(v, (EnumInt, EnumStr)):
+            if any(isinstance(c, ClassRef) and c.node.name == v._enum_cls for c in classes):
+                return True
+        if isinstance(v, NTVal):
+            if any(isinstance(c, ClassRef) and c.node.name == v._cls for c in classes):
+                return True
+        if isinstance(v, ExcRec):
+            for c in classes:
+                if isinstance(c, tuple) and len(c) == 2 and c[0] == "$exc" and isinstance(c[1], str):
+                    h = _BUILTIN_EXC.get(c[1])
+                    if h is not None and any(n in _BUILTIN_EXC and issubclass(_BUILTIN_EXC[n], h) for n in v._bases):
+                        return True
+        return super().isinstance_(v, classes)
+
+    def exc_text(self, rec: ExcRec, repr_: bool = False) -> str:
+        """``str(e)`` / ``repr(e)`` of an exception object: the class's own ``__str__`` / ``__repr__`` when the repository defines one"""
+        r = self.model.method(rec._impl[0], rec._impl[1], "__repr__" if repr_ else "__str__") if rec._impl else None
+        if r is not None:
+            out = self.apply(Func(r[0], r[1], bound=rec), [], {}, 1)
+            if not isinstance(out, str):
+                raise Raised("TypeError", "__str__ returned non-string")
+            return out
+        a = rec.__dict__.get("args", ())
+        if any(isinstance(x, (Rec, Func, ClassRef, Opaque)) for x in a):
+            return f"<{rec._cls}>"  # message text with abstract parts: diagnostics only
+        if repr_:
+            return f"{rec._cls}({', '.join(repr(x) for x in a)})"
+        return rec.message_text()
 
     def builtin(self, name, args, kwargs, e, env, mod, depth):
         if name in ("getattr", "hasattr"):
@@ -1171,13 +1441,23 @@ class LayerInterp(Interp):
                 return self._globals[k]
             if ident == "__name__":
                 return mod.rel[:-3].replace("/", ".")
-            v = super().name(ident, env, mod, depth, node)
+            v = self._name_or_builtin(ident, env, mod, depth, node)
             if k not in self.overrides:
                 self._globals[k] = v  # module-level definitions / constants / imports / builtins do not change during a run
             return v
         if ident == "__name__":
             return mod.rel[:-3].replace("/", ".")
-        return super().name(ident, env, mod, depth, node)
+        return self._name_or_builtin(ident, env, mod, depth, node)
+
+    _PURE_BUILTINS = {n: getattr(_builtins, n) for n in ("memoryview", "slice", "bin", "oct", "format", "pow", "ascii", "hash")}
+
+    def _name_or_builtin(self, ident, env, mod, depth, node):
+        try:
+            return super().name(ident, env, mod, depth, node)
+        except AnalysisError:
+            if ident in self._PURE_BUILTINS:  # pure built-ins pyint's table does not list (a name the module defines itself was found above)
+                return self._PURE_BUILTINS[ident]
+            raise
 
     # ---- attribute lookup on records bound to a repository class
     def _class_lookup(self, impl, attr):
@@ -1198,6 +1478,8 @@ class LayerInterp(Interp):
         return self._attr_cache[k]
 
     def getattr(self, base, attr, node, depth):
+        if isinstance(base, NTVal):
+            return self._nt_getattr(base, attr, node, depth)
         if attr == "__dict__" and isinstance(base, Rec):
             return {k: v for k, v in base.__dict__.items() if not (k.startswith("_") and not k.startswith("__"))}  # a copy: reads only
         if isinstance(base, Rec) and attr not in base.__dict__ and base._impl is not None and not (isinstance(base, DictRec) and attr in ("get", "pop", "items", "keys", "values", "setdefault", "get_all", "clear", "copy")):
@@ -1253,19 +1535,53 @@ class LayerInterp(Interp):
             names = [cc.name for _, cc in mro]
             ext = {last_attr(b) for _, cc in mro for b in cc.bases}
             init = self.model.method(c.mod.rel, qual, "__init__")
-            is_exc = bool(ext & {"Exception", "ValueError", "BaseException", "RuntimeError", "TypeError", "KeyError"})
+            is_exc = bool(ext & set(_BUILTIN_EXC))  # derives (through repository classes) from a built-in exception class
             self._dc_cache[k] = (qual, first, fields, tuple(names[1:]) + tuple(ext), init, is_exc)
         return self._dc_cache[k]
 
     def instantiate(self, c, args, kwargs, depth, where):
+        if self._enum_kind(c) in ("int", "str") and len(args) == 1 and not kwargs:
+            # Cls(value): the member with that value, ValueError otherwise
+            for m in self._enum_members(c, depth):
+                if type(args[0]) in (int, str, bool, EnumInt, EnumStr) and m == args[0]:
+                    return m
+            if any(last_attr(b) in ("Flag", "IntFlag") for _, cc in self.model.mro(c.mod.rel, getattr(c.node, "_qual", c.node.name)) for b in cc.bases):
+                raise AnalysisError(f"interpretation harness: {c.node.name}({args[0]!r}): composite flag values are not modelled")
+            raise Raised("ValueError", f"{args[0]!r} is not a valid {c.node.name}")
+        if any(last_attr(b) == "NamedTuple" for b in c.node.bases):
+            return self._namedtuple(c, args, kwargs, depth)
         qual, first, fields, bases, init, is_exc = self._class_info(c)
-        if first != "dataclass":
-            if is_exc or init is None:
+        if is_exc:
+            # an exception object: `args` as BaseException.__new__ sets them; the repository's __init__ chain is interpreted,
+            # `super().__init__(*a)` of the outermost repository class reaches BaseException.__init__ (args = a)
+            rec = ExcRec(c.node.name, _bases=bases, _impl=(c.mod.rel, qual), args=tuple(args), __cause__=None, __context__=None, __traceback__=None)
+
+            def base_init(*a, **k):
+                if k:
+                    raise Raised("TypeError", f"{c.node.name}() takes no keyword arguments")
+                object.__setattr__(rec, "args", tuple(a))
+
+            def with_traceback(tb=None):
+                return rec
+
+            base_init._abstract_ok = with_traceback._abstract_ok = True
+            object.__setattr__(rec, "_super_stubs", {"__init__": base_init})
+            object.__setattr__(rec, "with_traceback", with_traceback)
+            if first == "init":
+                self.apply(Func(init[0], init[1], bound=rec), list(args), kwargs, depth)
+                return rec
+            if first != "dataclass":
+                if kwargs:
+                    raise Raised("TypeError", f"{c.node.name}() takes no keyword arguments")
+                return rec
+        elif first != "dataclass":
+            if init is None:
                 return super().instantiate(c, args, kwargs, depth, where)
             rec = Rec(c.node.name, _bases=bases, _impl=(c.mod.rel, qual))
             self.apply(Func(init[0], init[1], bound=rec), list(args), kwargs, depth)
             return rec
-        rec = Rec(c.node.name, _bases=bases, _impl=(c.mod.rel, qual))
+        else:
+            rec = Rec(c.node.name, _bases=bases, _impl=(c.mod.rel, qual))
         if len(args) > len(fields):
             raise Raised("TypeError", "too many positional arguments")
         for (fname, _, _), v in zip(fields, args):
@@ -1886,3 +2202,170 @@ def hook_method_sem(ctx, rel: str, cls_name: str) -> str:
     except (AnalysisError, Raised):
         pass
     return hook_method(ctx, rel, cls_name)
+
+
+# ---------------------------------------------------------------------------------------------------
+# ---- hard-C22 / hard-C24 (additions only below this marker) ----------------------------------------
+# Module-level initialisation: pyint.modconst() takes the value of the LAST plain `NAME = expr` and ignores every later top-level
+# statement that completes the object (`TABLE = {}` ... `TABLE["k"] = f`, `TABLE.update(..)`, `LIST += [..]`, `for k in ..: TABLE[k] = ..`,
+# `if cond: NAME = a else: NAME = b`, `A, B = ..`).  ModuleInitMixin executes exactly those statements, in program order, like the import
+# of the module does.
+
+_MUTATING_METHODS = frozenset(
+    "append extend insert remove pop popitem clear update setdefault add discard sort reverse appendleft extendleft popleft "
+    "__setitem__ __delitem__ move_to_end difference_update intersection_update symmetric_difference_update subtract".split()
+)
+_SCOPES = (ast.FunctionDef, ast.AsyncFunctionDef, ast.Lambda, ast.ClassDef)
+from ..pyint import _Break  # noqa: E402
+from ..pyint import _Continue  # noqa: E402
+import builtins as _builtins  # noqa: E402
+
+
+def _root_name(node):
+    while isinstance(node, (ast.Attribute, ast.Subscript, ast.Starred)):
+        node = node.value
+    return node.id if isinstance(node, ast.Name) else None
+
+
+def _walk_same_scope(node):
+    """nodes of ``node`` that are evaluated in its own scope, when it runs (bodies of nested functions / classes and the targets of
+    comprehensions are other scopes)"""
+    todo = [node]
+    while todo:
+        n = todo.pop()
+        yield n
+        for ch in ast.iter_child_nodes(n):
+            if isinstance(ch, _SCOPES):
+                continue
+            if isinstance(ch, ast.comprehension):
+                todo.extend([ch.iter, *ch.ifs])
+                continue
+            todo.append(ch)
+
+
+def stmt_touches(st, name: str):
+    """None | 'bind' | 'mutate': what the top-level statement ``st`` does to the module-level name"""
+    kind = None
+    for n in _walk_same_scope(st):
+        if isinstance(n, ast.Name) and n.id == name and isinstance(n.ctx, (ast.Store, ast.Del)):
+            return "bind"
+        if isinstance(n, (ast.Attribute, ast.Subscript)) and isinstance(n.ctx, (ast.Store, ast.Del)) and _root_name(n) == name:
+            kind = "mutate"
+        elif isinstance(n, ast.Call) and isinstance(n.func, ast.Attribute) and _root_name(n.func) == name and n.func.attr in _MUTATING_METHODS:
+            kind = "mutate"
+        elif isinstance(n, ast.Expr) and isinstance(n.value, ast.Call) and isinstance(n.value.func, ast.Attribute) and _root_name(n.value.func) == name:
+            kind = "mutate"  # a method call whose value is discarded is made for its effect
+        elif isinstance(n, (ast.alias,)) and (n.asname or n.name.split(".")[0]) == name:
+            return None  # (an import inside if/try: resolved through mod.imports, not here)
+    return kind
+
+
+def module_init_statements(mod, name: str):
+    """The top-level statements that build the module-level object ``name``, in program order - or None when plain `NAME = expr`
+    statements are all there is (pyint's own rule, last assignment wins, is exact then)."""
+    cache = mod.__dict__.setdefault("_init_stmts_cache", {})
+    if name not in cache:
+        out, plain = [], True
+        for st in mod.tree.body:
+            if isinstance(st, (ast.FunctionDef, ast.AsyncFunctionDef, ast.ClassDef, ast.Import, ast.ImportFrom)):
+                continue
+            kind = stmt_touches(st, name)
+            if kind is None:
+                continue
+            out.append(st)
+            simple = (isinstance(st, ast.Assign) and all(isinstance(t, ast.Name) for t in st.targets)) or (isinstance(st, ast.AnnAssign) and isinstance(st.target, ast.Name))
+            if not (kind == "bind" and simple):
+                plain = False
+        cache[name] = None if plain or not out else out
+    return cache[name]
+
+
+class ModuleInitMixin:
+    """Interp mixin: a module-level name whose object is completed by later top-level statements gets the value the import leaves behind."""
+
+    def modconst(self, mod, name, depth):
+        key = (mod.rel, name)
+        if key in self._modconst:
+            return self._modconst[key]
+        stmts = module_init_statements(mod, name)
+        if stmts is None:
+            return super().modconst(mod, name, depth)
+        busy = self.__dict__.setdefault("_modinit_busy", set())
+        if key in busy:
+            raise AnalysisError(f"pyint: module-level initialisation of {mod.rel}::{name} depends on itself through another module-level name (not modelled)")
+        busy.add(key)
+        try:
+            env: dict = {}
+            try:
+                for st in stmts:
+                    self.stmt(st, env, mod, depth)
+            except Raised as r:
+                raise AnalysisError(f"pyint: module-level initialisation of {mod.rel}::{name} raises {r.name} (not modelled)")
+            except (_Return, _Break, _Continue):
+                raise AnalysisError(f"pyint: module-level initialisation of {mod.rel}::{name}: control flow not modelled")
+        finally:
+            busy.discard(key)
+        if name not in env:
+            raise AnalysisError(f"pyint: module-level initialisation of {mod.rel}::{name} leaves the name unbound on the evaluated path")
+        self._modconst[key] = env[name]
+        return env[name]
+
+    def name(self, ident, env, mod, depth, node):
+        try:
+            return super().name(ident, env, mod, depth, node)
+        except AnalysisError as e:
+            # bound only inside a top-level compound statement (`if cond: NAME = a` / `try: NAME = ..` / `for ..`): Module.assigns() does not see it
+            if "unbound name" not in str(e) or ident in env or module_init_statements(mod, ident) is None:
+                raise
+            return self.modconst(mod, ident, depth)
+
+
+class NativeExcMixin:
+    """Interp mixin: an exception raised by a trusted library keeps its class hierarchy.  pyint turns it into ``Raised(<class name>)`` and
+    ``exc_isa`` only knows builtins and repository classes, so ``except ValueError`` did not catch ``ipaddress.AddressValueError`` /
+    ``binascii.Error`` / ``json.JSONDecodeError`` / ``struct.error`` (all ValueError / Exception subclasses in Python)."""
+
+    def _exc_registry(self):
+        reg = self.__dict__.get("_native_excs")
+        if reg is None:
+            import types
+
+            reg = self.__dict__["_native_excs"] = {}
+            amb = set()
+            for m in list(self.trusted.values()):
+                if not isinstance(m, types.ModuleType):
+                    continue
+                for v in vars(m).values():
+                    if isinstance(v, type) and issubclass(v, BaseException) and getattr(_builtins, v.__name__, None) is not v:
+                        if reg.get(v.__name__, v) is not v:
+                            amb.add(v.__name__)
+                        reg[v.__name__] = v
+            for n in amb:
+                reg.pop(n)  # the same spelling in two libraries: only an exception actually raised (below) tells which one is meant
+        return reg
+
+    def native_call(self, f, args, kwargs, where):
+        try:
+            return super().native_call(f, args, kwargs, where)
+        except Raised as r:
+            e = r.__context__
+            if isinstance(e, Exception) and not isinstance(e, (Raised, AnalysisError)) and type(e).__name__ == r.name:
+                self._exc_registry()[r.name] = type(e)
+            raise
+
+    def exc_isa(self, name, handler, mod):
+        if super().exc_isa(name, handler, mod):
+            return True
+        if isinstance(getattr(_builtins, name, None), type):
+            return False
+        c1 = self._exc_registry().get(name)
+        if c1 is None or self._repo_ancestors(name, mod) != {name}:
+            return False  # a repository class of that name: pyint's own rule is the answer
+        c2 = getattr(_builtins, handler, None)
+        if not isinstance(c2, type):
+            c2 = self._exc_registry().get(handler) if self._repo_ancestors(handler, mod) == {handler} else None
+        return isinstance(c2, type) and issubclass(c1, c2)
+
+
+class InitLayerInterp(NativeExcMixin, ModuleInitMixin, LayerInterp):
+    """LayerInterp + module-level initialisation statements + class hierarchy of library exceptions."""
